@@ -824,6 +824,39 @@ impl Job {
     }
 }
 
+/// Rejected inputs whose decoding visits many offsets before it fails (see `r_case`).
+fn poison_inputs() -> Vec<(&'static str, Bytes)> {
+    let mut out: Vec<(&'static str, Bytes)> = Vec::new();
+    // stand-alone names: chains of 18 pointers (even offsets; odd offsets behind a 2-octet label), a loop
+    for lead in [&b""[..], &b"\x02aa"[..]] {
+        let mut b = lead.to_vec();
+        let base = b.len();
+        for k in 0..18usize {
+            let t = (base + 2 * (k + 1)) as u16;
+            b.extend_from_slice(&(0xC000u16 | t).to_be_bytes());
+        }
+        b.push(0);
+        out.push(("DomainName", Bytes::from(b)));
+    }
+    out.push(("DomainName", Bytes::from_static(b"\xc0\x02\xc0\x00")));
+    out.push(("DomainName", Bytes::from_static(b"\x01a\xc0\x04\xc0\x02")));
+    // messages: the question name points at a chain of 18 pointers starting at `start`
+    for start in [14usize, 15, 50, 51, 90, 91, 130, 131, 170, 171, 210, 211] {
+        let mut b = vec![0u8; 260];
+        b[5] = 1; // QDCOUNT = 1
+        b[12..14].copy_from_slice(&(0xC000u16 | start as u16).to_be_bytes());
+        for k in 0..18usize {
+            let at = start + 2 * k;
+            let t = (at + 2) as u16;
+            b[at..at + 2].copy_from_slice(&(0xC000u16 | t).to_be_bytes());
+        }
+        out.push(("Dns", Bytes::from(b)));
+    }
+    out.push(("Dns", Bytes::from_static(b"\x00\x00\x00\x00\x00\x01\x00\x00\x00\x00\x00\x00\xc0\x0c\x00\x01\x00\x01")));
+    out.push(("Dns", Bytes::from_static(b"\x00\x00\x00\x00\x00\x02\x00\x00\x00\x00\x00\x00\x01a\x00\x00\x01")));
+    out
+}
+
 fn r_case(rest: &str) -> String {
     let (reps, rest) = split_word(rest);
     let (threads, inner) = split_word(rest);
@@ -860,14 +893,24 @@ fn r_case(rest: &str) -> String {
     };
     let job = Arc::new(job);
     let before = job.snapshot();
+    let poison = Arc::new(poison_inputs());
 
     let handles: Vec<_> = (0..threads)
-        .map(|_| {
+        .map(|idx| {
             let job = Arc::clone(&job);
+            let poison = Arc::clone(&poison);
             std::thread::spawn(move || {
                 let mut distinct: HashSet<String> = HashSet::new();
                 let mut first: Option<String> = None;
-                for _ in 0..reps {
+                for rep in 0..reps {
+                    // "independent of what happened before on this thread": every second thread (a single thread: the
+                    // second half of its repetitions) decodes a REJECTED input before each run -- pointer chains that
+                    // fail after visiting many offsets, truncated messages.  State kept across calls (a thread-local
+                    // or static that an error path forgets to reset) then shows as a second distinct result.
+                    if (threads > 1 && idx % 2 == 1) || (threads == 1 && rep >= reps / 2) {
+                        let (entry, bytes) = &poison[(rep + idx) % poison.len()];
+                        let _ = run_d(entry, bytes.clone());
+                    }
                     let line = job.run();
                     if first.is_none() {
                         first = Some(line.clone());
